@@ -11,7 +11,10 @@ Real code: generate() + Model.simplify({'expand_vectors': True}) versus generate
 
 The model family is MODELS (hand-written) + TENSOR_MODELS + the generators gen_attr_* (which attribute of
 which kind of variable carries which kind of array-valued expression), gen_outputs (order and kinds of the
-output list) and gen_delay* (what is delayed x what the duration is made of); see family().
+output list) and gen_delay* (what is delayed x what the duration is made of); the same generators at boundary sizes
+(10+ elements / components / delays: two-digit indices, where string order and element order part); gen_alias
+(whole-array alias pairs, compiled with detect_aliases on both sides: a later pass reading the expanded scalars, in
+particular the "start was never set" marker) and the VARIANTS of check() (second expansion pass); see family().
 """
 import itertools
 import os
@@ -717,7 +720,8 @@ def family(tier):
                             if thorough and swap == 0:
                                 items.append((mid, gen_alias(dims, neg, ka, partner, swap)))
     # (H) the expansion runs over an already expanded model: iterative_simplification, simplify() called twice
-    for mid, text in list(MODELS.items()) + [it for it in items if it[0].startswith(("delay-multi:", "big-delay:12:mix", "attr:2x3:r0", "out:S1.A2.S2:pad1"))][:6]:
+    # (not the two models whose FIRST expansion already raises: known findings)
+    for mid, text in [it for it in MODELS.items() if it[0] not in ("comp-array-literal-attr", "const-expr-attr")] + [it for it in items if it[0] in ("attr:2x3:r0", "attr-compmod:2x3:r0", "attr-compinner:2x3:r4", "out:S1.A2.S2:pad1", "big-attr:12:r0", "big-out:S2.A1:pad0")]:
         for variant in ("iter", "twice"):
             items.append((mid, text, variant))
     return items
@@ -1159,9 +1163,12 @@ def main():
     for col in run_parallel(work, items, args.jobs):
         rep.merge(col)
     cov = rep.coverage
+    thorough = args.tier == "thorough"
     cov["disagreements_checked"] = rep.queries.get("sat", 0)
     cov["functions_encoded"] = ["Model._expand_vectors (via simplify, both code paths: with and without expand_mx)",
-                                "dae/initial residual, variable_metadata, delay_arguments Functions before and after"]
+                                "dae/initial residual, variable_metadata, delay_arguments Functions before and after",
+                                "Model.simplify detect_aliases pass consuming the expanded scalars (both compiles get the option)",
+                                "a second _expand_vectors pass (iterative_simplification / repeated simplify)"]
     classes = {}
     for it in items:
         mid = it[0]
@@ -1169,7 +1176,7 @@ def main():
         classes[k] = classes.get(k, 0) + 1
     cov["family_models_per_class"] = classes
     cov["bounds"] = (
-        f"{len(items)} models x 2 option sets (expand_vectors with / without expand_mx); all numeric values unbounded reals. "
+        f"{len(items)} (model, variant) pairs x 2 option sets (expand_vectors with / without expand_mx); all numeric values unbounded reals. "
         "Shapes [1], [3], [1,1], [1,3], [3,1], [2,2], [2,3], [3,2], components qq / qq[1] / qq[2] / qq[3] holding [3] arrays and scalars. "
         f"(A) attributes: state, algebraic, input, parameter (value and bounds), output state, constant of every shape, each of start/min/max/nominal/value "
         f"rotated through {NK} expression kinds ({', '.join(k for k, _ in ATTR_KINDS)}; lo, hi array parameters of the variable's shape, p scalar parameter), "
@@ -1183,12 +1190,26 @@ def main():
         "1-D / 2-D input arrays, sums and products of those), three delays per model, delays inside a component with its own array parameters. "
         "(D) initial equations over arrays, der of whole 2-D arrays, matrix*vector / transpose / slices / sum, repo models SimplifyVector and DelayForLoop. "
         "(E) declaration-only 3-D+ arrays (top-level [2,1,2]..[2,3,2], qq[2].A[2,3], rr[2,2].A[2,3], qq[2].r[3].x[2]): names, attribute elements, types, outputs compared "
-        "concretely (no Functions exist for them without expand_vectors, pymoca cannot subscript them)."
+        "concretely (no Functions exist for them without expand_vectors, pymoca cannot subscript them). "
+        f"(F) boundary sizes (two-digit indices / delay numbers): the attribute generator for shapes {', '.join(_dd(d) for d in BIG_SHAPES)} "
+        f"({'all rotations' if thorough else 'two rotations each'}), components qq[10] x [3], qq[2] x [11], qq x [12]{', qq[11] x [10]' if thorough else ''}; output lists of "
+        f"{'1..3' if thorough else '1..2'} outputs with shapes [11], [10], [2,10], [10,1], [11,2]{' with and without interleaved arrays' if thorough else ''}; delays with "
+        f"n = {'9, 10, 11, 12, 23' if thorough else '10, 12'}: delayed n-vector / vector expression, 2 x n and n x 2 matrices, n delays from a for-loop, a big vector delay between scalar "
+        f"and matrix delays, n separate delay() calls, x {'all' if thorough else '2'} duration kinds. "
+        f"(G) detect_aliases given to both compiles (variant `alias`): whole-array alias equations a = b / a = -b / b = a over shapes {', '.join(_dd(d) for d in (ALIAS_SHAPES if thorough else ALIAS_SHAPES[:3]))}, "
+        f"start of either partner never set | list literal | DM expression | each | array parameter | parameter expression (every pair the unexpanded alias merging accepts), "
+        f"partner algebraic | differentiated state | input | inside a component{'' if thorough else ' (one partner kind and one orientation per shape x sign x start kind, rotating)'}, bounds, nominal and fixed on both partners; "
+        "alias sets compared element by element. On every member of every class: the `never set` marker of start is on exactly the elements of the arrays that have it; "
+        "delay states are in the order of the states they came from. "
+        "(H) second expansion pass (variants `iter` = iterative_simplification, `twice` = simplify() called again) on the hand-written models and six generated ones."
     )
     rep.assumptions += ["real arithmetic; divisors non-zero", "naming convention of the statement: indices attach to the component level that declares the dimension, row-major order",
                         "delay states are named <state>[i,j] after the 2-D CasADi shape of the delayed expression (what the implementation has always produced; "
                         "the statement only asks that they are renamed like the rest of the model)",
-                        "a model whose unexpanded Functions cannot be built is not compared (listed under unsupported_models) unless the expansion itself raises"]
+                        "a model whose unexpanded Functions cannot be built is not compared (listed under unsupported_models) unless the expansion itself raises",
+                        "variant `alias`: whole-array alias equations only, so that the unexpanded and the expanded alias detection see the same aliases; the expanded model "
+                        "must then choose the same canonical variables element by element (holds on the unchanged code; not demanded by the statement itself)",
+                        "every compile of a model text gets its own unpickled copy of one parse of that text (as pymoca's parse cache does)"]
     if not cov.get("programs"):
         rep.harness_error("nothing compared")
     if len(cov.get("unsupported_models", [])) > len(items) // 20:
